@@ -29,12 +29,15 @@ PROPS = {
                 text="State machine of Reorder / Rotate (exact unitaries among co-centred functions) over a catalogue of small exact systems: "
                      "H(k)' = P^T H(k) P resp. U^+ H(k) U, characteristic polynomial invariant, covariant Wannier-gauge derivative (centres/shifts "
                      "permuted); every state replayed on System_R.reorder / a rotation of all R-matrices (exact projection, H(k), spectrum, derivative "
-                     "before/after, also 2-D systems, a non-orthogonal lattice, wannier_names); evaluate_k on a hash-drawn sub-sample of the states "
+                     "before/after, also 2-D systems, a non-orthogonal lattice, wannier_names; in one configuration the systems carry EVERY real-space matrix the "
+                     "package knows - names and Cartesian ranks enumerated from NeededData / num_cart_dim - and each must follow: X'(R) = P^T X(R) P "
+                     "resp. U^+ X(R) U on the orbital indices, Cartesian indices untouched); evaluate_k on a hash-drawn sub-sample of the states "
                      "(quick ~1/15, thorough ~1/40), run() on the first 3 (quick) / 24 (thorough) of them.",
                 note="numeric (1e-8 relative, exact inputs): evaluate_k energies/Berry curvature and run() CumDOS/AHC before/after; deciding numeric part "
                      "(1e-6 relative, observed 1e-13): random complex systems with AA, Haar-random unitaries among co-centred functions AND a random "
                      "reordering: evaluate_k energy / Berry curvature with external terms / band gradients, run() CumDOS, DOS, AHC (external terms), "
-                     "Ohmic_FermiSea",
+                     "Ohmic_FermiSea; (1e-7 relative, observed 1e-14) a spinful system with the matrices of both spin-current definitions: run() SHC "
+                     "'ryoo' / 'qiao' and tabulated spin Berry curvature before/after reorder",
                 ref="DESIGN.md 3.4, row C05"),
     "C25": dict(level="model_checking", technique=_T,
                 text="DoubleSpin (every band twice; the pairing is read from the code's SS, any order of the doubled functions is accepted), MakeSOC "
@@ -73,6 +76,9 @@ PROPS = {
                      "the code's corner spectra; numeric (deciding, 1e-8): NKFFT = 3 grids, k.p systems with Cartesian k on a non-cubic cell",
                 ref="DESIGN.md 3.4, row C33"),
 }
+
+
+ALL_NAMES = '{"BB", "CC", "SS", "SH", "OO", "SHA", "SA", "SR", "SHR", "GG", "FF"}'
 
 
 def _workers(thorough):
@@ -208,17 +214,24 @@ def check_c05(rep, thorough):
                 ("c05_reorder_2hops", ["Reorder"], dict(OPS='{"Reorder"}', NWS="{2}", MAXHOPS=2, NEPS=1, NCEN=2, WITHX="{FALSE}"), 60),
                 ("c05_rotate", ["Rotate"], dict(OPS='{"Rotate"}', NWS="{2}", MAXHOPS=1, NEPS=2, NCEN=3, PHS="{0, 1, 2, 3}", WITHX="{FALSE, TRUE}"), 100),
                 ("c05_rotate_3", ["Rotate"], dict(OPS='{"Rotate"}', NWS="{3}", KDIRS=1, MAXHOPS=1, NEPS=1, NCEN=2, PHS="{0, 1}"), 60),
-                ("c05_chain", ["Reorder", "Rotate"], dict(OPS='{"Reorder", "Rotate"}', MAXLEN=2, NWS="{2}", KDIRS=2, MAXHOPS=1, NEPS=1, NCEN=1, PHS="{1, 2}"), 80)]
+                ("c05_chain", ["Reorder", "Rotate"], dict(OPS='{"Reorder", "Rotate"}', MAXLEN=2, NWS="{2}", KDIRS=2, MAXHOPS=1, NEPS=1, NCEN=1, PHS="{1, 2}"), 80),
+                ("c05_names", ["Reorder", "Rotate"], dict(OPS='{"Reorder", "Rotate"}', MAXLEN=1, NWS="{2, 3}", KDIRS=1, MAXHOPS=1, NEPS=1, NCEN=2, PHS="{1}",
+                                                          NAMES=ALL_NAMES), 200)]
     else:
         cfgs = [("c05_reorder", ["Reorder"], dict(OPS='{"Reorder"}', NWS="{1, 2}", MAXHOPS=1, NEPS=1, NCEN=2, WITHX="{FALSE, TRUE}"), 15),
-                ("c05_chain", ["Reorder", "Rotate"], dict(OPS='{"Reorder", "Rotate"}', MAXLEN=2, NWS="{2}", KDIRS=1, MAXHOPS=1, NEPS=1, NCEN=2, PHS="{1}"), 15)]
+                ("c05_chain", ["Reorder", "Rotate"], dict(OPS='{"Reorder", "Rotate"}', MAXLEN=2, NWS="{2}", KDIRS=1, MAXHOPS=1, NEPS=1, NCEN=2, PHS="{1}"), 15),
+                ("c05_names", ["Reorder", "Rotate"], dict(OPS='{"Reorder", "Rotate"}', MAXLEN=1, NWS="{2}", KDIRS=1, MAXHOPS=1, NEPS=1, NCEN=2, PHS="{1}",
+                                                          NAMES=ALL_NAMES), 50)]
     for name, classes, kw, every in cfgs:
         st = O.run_ops(rep, name, w, **kw)
         if st is None:
             continue
         _replay_all(rep, st, "C05", name, ["base"] + classes, sample_every=every, on_sample=on_sample)
     O.sensitivity(rep, "c05_reorder_keepcentres", "LawReorder", w, OPS='{"Reorder"}', NWS="{2}", NEPS=1, Variant='"keepcentres"')
-    O.sensitivity(rep, "c05_rotate_not_cocentred", "LawRotate", w, OPS='{"Rotate"}', NWS="{2}", NEPS=1, NCEN=2, Variant='"anyU"')
+    O.sensitivity(rep, "c05_reorder_fixed_names", "LawReorder", w, OPS='{"Reorder"}', NWS="{2}", NEPS=1, NCEN=1, MAXHOPS=0, NAMES='{"SS", "SA"}',
+                  Variant='"fixednames"')
+    if thorough:
+        O.sensitivity(rep, "c05_rotate_not_cocentred", "LawRotate", w, OPS='{"Rotate"}', NWS="{2}", NEPS=1, NCEN=2, Variant='"anyU"')
     if numeric["evaluate_k"] == 0 and not rep.violations:
         raise MachineryError("no evaluate_k comparison was made")
     rep.part("numeric_exact_inputs", **numeric, tolerance=1e-8)
@@ -239,7 +252,18 @@ def check_c05(rep, thorough):
             rep.violation(f"{key}:shifts", dict(record=rec, differences=dv))
         recs.append(rec)
         rep.case(("rec", rec["fn"], i, repr(rec["sys"]), repr(rec.get("p", rec.get("U")))))
-    _validate(rep, recs, "c05", lambda r: "System_R.reorder" if r["fn"] == "reorder" else "rotate_all_R_matrices")
+    # systems that carry every real-space matrix the package knows (names and ranks enumerated from the code): all of them follow
+    for i in range(60 if thorough else 4):
+        a = RND.rand_sys(rng, rmax=1, nw=rng.choice([2, 3, 3]), with_x=True)
+        var = W.variant_of(("c05named", i))
+        what, key = ("reorder", "System_R.reorder") if i % 2 == 0 else ("rotate", "rotate_all_R_matrices")
+        val = _try_record(rep, key, dict(sys=W.sys_json(a), index=i, named=True), RND.rec_named, rng, a, what, var=var)
+        if val is None:
+            continue
+        recs.append(val[0])
+        rep.case(("rec", val[0]["fn"], i))
+    rep.part("named_matrices", names=W.named_names(), ranks={n: W.SPEC_RANKS[n] for n in W.named_names()}, source="NeededData / num_cart_dim of the package")
+    _validate(rep, recs, "c05", lambda r: "System_R.reorder" if r["fn"].startswith("reorder") else "rotate_all_R_matrices")
     v0 = _try_record(rep, "System_R.reorder", dict(selftest=True), RND.rec_reorder, rng, _fixed_sys(5, nw=3, cen_choices=(0, 3, 4)), p=[2, 0, 1])
 
     def spoil(r):
@@ -303,7 +327,65 @@ def check_c05(rep, thorough):
                                                                  outputs={k: float(np.max(np.abs(rr[0][k] - rr[1][k]))) for k in rr[0]}))
     rep.part("numeric_deciding", random_cases=nn, max_relative_deviation_evaluate_k=maxdev, run_cases=min(nn, nruns),
              max_relative_deviation_run=maxrun, tolerance=1e-6)
+    _spin_hall_numeric(rep, thorough)
     return rep.finish()
+
+
+def _spin_hall_numeric(rep, thorough):
+    """deciding numeric part (1e-7 relative, observed 1e-14): a spinful system that carries the matrices of both spin-current
+    definitions (SA, SHA, SH / SR, SH, SHR): run() SHC 'ryoo' and 'qiao' and the tabulated spin Berry curvature before / after reorder"""
+    import wannierberri as wb
+    from . import kmodels
+    ef = np.array([-1.375, 0.625, 2.125])
+    keys = ("Ham", "AA", "SS", "SH", "SA", "SHA", "SR", "SHR")
+
+    def run(system):
+        calcs = {"shc_ryoo": wb.calculators.static.SHC(Efermi=ef, kwargs_formula={"spin_current_type": "ryoo"}),
+                 "shc_qiao": wb.calculators.static.SHC(Efermi=ef, kwargs_formula={"spin_current_type": "qiao"}),
+                 "tab": wb.calculators.TabulatorAll({"Energy": wb.calculators.tabulate.Energy(),
+                                                     "spinberry_ryoo": wb.calculators.tabulate.SpinBerry(kwargs_formula={"spin_current_type": "ryoo"}),
+                                                     "spinberry_qiao": wb.calculators.tabulate.SpinBerry(kwargs_formula={"spin_current_type": "qiao"})},
+                                                    ibands=list(range(system.num_wann)))}
+        out = os.path.join(O.scratch(), "run_shc")
+        os.makedirs(out, exist_ok=True)
+        with quiet(), warnings.catch_warnings():
+            warnings.simplefilter("ignore")
+            grid = wb.Grid(system=system, NKdiv=[2, 2, 1], NKFFT=[2, 2, 1])
+            res = wb.run(system, grid=grid, calculators=calcs, adpt_num_iter=0, parallel=False, restart=False, use_irred_kpt=False,
+                         symmetrize=False, print_Kpoints=False, fout_name=os.path.join(out, "res"))
+        r = {k: np.array(res.results[k].data) for k in ("shc_ryoo", "shc_qiao")}
+        for q in ("Energy", "spinberry_ryoo", "spinberry_qiao"):
+            r["tab_" + q] = np.array(res.results["tab"].results[q].data)
+        return r
+    maxdev, n = 0.0, 0
+    perms = [[1, 2, 3, 0], [1, 0, 2, 3], [2, 3, 0, 1]]
+    for im in range(4 if thorough else 1):
+        model = kmodels.build(seed() * 31 + 7 + im, nw=2, dim=2, rmax=1, keys=keys, spinful=True)
+        detail = dict(model=model.describe())
+        ok, ref = W.guarded(rep, "System_R.reorder:spin_hall:numeric", detail, lambda: run(model.system()))
+        if not ok:
+            continue
+        if any(not np.all(np.isfinite(v)) or np.max(np.abs(v)) < 1e-10 for v in ref.values()):
+            raise MachineryError("spin Hall numeric case: a reference output vanishes")
+        for p in perms[:3 if thorough else 2]:
+            def after():
+                s = model.system()
+                with quiet():
+                    s.reorder(p)
+                return run(s)
+            ok, res = W.guarded(rep, "System_R.reorder:spin_hall:numeric", dict(detail, permutation=p), after)
+            if not ok:
+                continue
+            n += 1
+            rep.case(("shc", im, tuple(p)))
+            devs = {k: float(np.max(np.abs(res[k] - ref[k]))) / max(1.0, float(np.max(np.abs(ref[k])))) if res[k].shape == ref[k].shape else float("inf")
+                    for k in ref}
+            maxdev = max(maxdev, max(devs.values()))
+            if max(devs.values()) > 1e-7:
+                rep.violation("System_R.reorder:spin_hall:numeric", dict(detail, permutation=p, relative_deviations=devs,
+                                                                        note="SHC with the 'ryoo' / 'qiao' spin current and the tabulated spin Berry curvature "
+                                                                             "before and after relabelling the Wannier functions"))
+    rep.part("numeric_deciding_spin_hall", cases=n, max_relative_deviation=maxdev, tolerance=1e-7, matrices=list(keys))
 
 
 # =================================================================================================== C25
